@@ -287,6 +287,48 @@ def mechanism(run, repo, two_sites):
                 fields_of(ln)[1].value.eq(s_.attrs['density']) for ln, s_ in zip(bulk_lines, w.sites))
             run.check(okb, 'DATAFLOW.site', 'chemkin.write_surf', tag + ' bulk', '[%s] BULK lines do not carry each '
                       'site\'s bulk species and density once' % label, m, fn)
+    # ---------------- the formatting options: delimiters, formats, activation-energy unit, MW correction ----------------
+    opts = {'species_delimiter': ' + ', 'reaction_delimiter': ' <=> ', 'act_unit': 'kJ/mol', 'float_format': ' .5E',
+            'stoich_format': '.1f', 'column_delimiter': '    '}
+    gas_rx = [r for r in w.reactions if all(sp.attrs['phase'].upper() == 'G' for sp in side_of(r, 'reactants').items)]
+    surf_rx = [r for r in w.reactions if r not in gas_rx]
+    for writer, kw, rx, extra in (
+            ('write_gas', {'nasa_species': species_list, 'reactions': ListV(list(w.reactions)), 'T': T, 'P': P,
+                           'act_method_name': 'get_G_act'}, gas_rx, {}),
+            ('write_surf', {'reactions': rset, 'T': T, 'P': P, 'act_method_name': 'get_G_act',
+                            'ads_act_method': 'get_H_act', 'sden_operation': 'min'}, surf_rx,
+             {'use_mw_correction': False})):
+        fn = m.functions[writer]
+        out = I.call_function(m, fn, [], dict(kw, **dict(opts, **extra)))
+        label = '%s %s with formatting options' % (tag, writer)
+        if isinstance(out, Raised):
+            run.fail('DATAFLOW.write', 'chemkin.' + writer, label, 'raises %s' % out.exc, m, fn)
+            continue
+        sec, clean = sections(out, I)
+        ckw = {'T': T, 'P': P}
+        if writer == 'write_surf':
+            ckw['sden_operation'] = 'min'
+        check_reaction_lines(run, w, sec.get('REACTIONS', []), rx, label, writer, m, ckw, 'get_G_act',
+                             'get_H_act' if writer == 'write_surf' else None, 'kJ/mol')
+        head = [ln for ln in clean if ln.segs and ln.segs[0].kind == 'lit' and ln.segs[0].text.startswith('REACTIONS')]
+        htxt = ''.join(s_.text for s_ in head[0].segs if s_.kind == 'lit') if head else ''
+        if writer == 'write_surf':
+            # surf.inp declares the unit of its activation energies and the molecular-weight correction on the
+            # REACTIONS line (gas.inp declares neither, there is nothing to compare)
+            okh = 'KJ/MOL' in htxt and 'KCAL' not in htxt and 'MWOFF' in htxt and 'MWON' not in htxt
+            run.check(okh, 'DATAFLOW.option', 'chemkin.' + writer, tag + ' REACTIONS header',
+                      '[%s] the REACTIONS line is %r: the activation energies below it are written in kJ/mol and the '
+                      'molecular-weight correction was switched off' % (label, htxt), m, fn)
+        # the equations use the requested delimiters, once between the sides and between any two species of a side
+        recs = [ln for ln in sec.get('REACTIONS', []) if not (ln.is_literal() and ln.literal().strip() == 'STICK')]
+        for ln, rxn in zip(recs, rx):
+            last = max(i_ for i_, s_ in enumerate(ln.segs) if s_.kind == 'field' and s_.cls != 'num')
+            eq = ''.join(s_.text for s_ in ln.segs[:last] if s_.kind == 'lit')
+            n_sp = len(side_of(rxn, 'reactants').items) + len(side_of(rxn, 'products').items)
+            okd = eq.count('<=>') == 1 and eq.replace('<=>', '').count('=') == 0 and eq.count(' + ') == n_sp - 2
+            run.check(okd, 'DATAFLOW.option', 'chemkin.' + writer, tag + ' delimiters',
+                      '[%s] the equation of %s is written as %s: the requested delimiters \' + \' and \' <=> \' must '
+                      'separate its %d species' % (label, rxn.name, show(ln, 140), n_sp), m, fn)
     # every reaction in exactly one of the two files (complementary predicates on the same attribute)
     both = [r for r in w.reactions]
     n_gas = len([r for r in both if r.attrs['gas_phase'] is True])
@@ -510,6 +552,46 @@ def run_files(run, repo):
                   m, fn)
 
 
+def number_formats(run, repo, w):
+    """the float format and column delimiter the caller asks for are the ones every number is printed with"""
+    m = repo.module(CK)
+    I = w.I
+    D = I.D
+    conds = ListV([DictV({'T': D.sym('T%d' % i), 'P': D.sym('P%d' % i)}) for i in range(2)])
+    n = 2
+    Ts, Ps, Qs, As = (ListV([D.sym('%s%d' % (q, i)) for i in range(n)]) for q in 'TPQA')
+    sp = [s_ for s_ in w.species.values()][:3]
+    mf = ListV([DictV({sp[0].attrs['name']: D.sym('x00'), sp[1].attrs['name']: D.sym('x01')}),
+                DictV({sp[0].attrs['name']: D.sym('x10'), sp[2].attrs['name']: D.sym('x12')})])
+    cases = (('write_EA', {'reactions': ListV(list(w.reactions)), 'conditions': conds, 'write_gas_phase': False,
+                           'act_method_name': 'get_GoRT_act', 'ads_act_method': 'get_GoRT_act'}),
+             ('write_T_flow', {'T': Ts, 'P': Ps, 'Q': Qs, 'abyv': As}),
+             ('write_tube_mole', {'mole_frac_conditions': mf, 'nasa_species': ListV(sp)}))
+    for writer, kw in cases:
+        fn = m.functions[writer]
+        for ff, cd in ((' .4E', ' ; '), ('.6f', '\t')):
+            out = I.call_function(m, fn, [], dict(kw, float_format=ff, column_delimiter=cd))
+            label = '%s float_format=%r column_delimiter=%r' % (writer, ff, cd)
+            if isinstance(out, Raised):
+                run.fail('DATAFLOW.write', 'chemkin.' + writer, label, 'raises %s' % out.exc, m, fn)
+                continue
+            lines = [ln.strip('rstrip', '\n') for ln in I.seg(out).splitlines()]
+            lines = [ln for ln in lines if any(f.cls == 'num' for f in fields_of(ln))
+                     and not (ln.segs[0].kind == 'lit' and ln.segs[0].text.startswith('!'))]
+            specs = sorted({(f.spec or '').strip('{:}') for ln in lines for f in fields_of(ln) if f.cls == 'num'})
+            run.check(bool(lines) and specs == [ff], 'DATAFLOW.option', 'chemkin.' + writer, 'float_format',
+                      '[%s] the numbers are printed with the formats %s' % (label, specs), m, fn)
+            okc = bool(lines)
+            for ln in lines:
+                # between two consecutive printed values stands the requested column delimiter
+                for a_, b_, c_ in zip(ln.segs, ln.segs[1:], ln.segs[2:]):
+                    if a_.kind == 'field' and a_.cls == 'num' and c_.kind == 'field' and c_.cls == 'num' \
+                            and b_.kind == 'lit':
+                        okc = okc and cd in b_.text
+            run.check(okc, 'DATAFLOW.option', 'chemkin.' + writer, 'column_delimiter',
+                      '[%s] two neighbouring values are not separated by the requested column delimiter' % label, m, fn)
+
+
 def check(run, repo):
     run.explanation = (
         'write_gas, write_surf, write_EA, write_T_flow and write_tube_mole (with _write_reaction_lines, '
@@ -538,6 +620,7 @@ def check(run, repo):
         run.fn('%s.%s' % (CK, f_))
     w = mechanism(run, repo, False)
     ea_files(run, repo, w)
+    number_formats(run, repo, w)
     if run.tier == 'thorough' or True:
         mechanism(run, repo, True)
     run_files(run, repo)
@@ -551,6 +634,14 @@ def check(run, repo):
 
 K_ = 'pmutt/io/chemkin.py'
 MUTANTS = [
+    {'name': 'T_flow columns separated by a fixed blank', 'expect': ('DATAFLOW.option', 'write_T_flow'),
+     'edits': [(K_, "            line_field.format(T_i, column_delimiter, P_i, column_delimiter,\n                              Q_i, column_delimiter, abyv_i, i + 1))", "            line_field.format(T_i, ' ', P_i, ' ',\n                              Q_i, ' ', abyv_i, i + 1))")]},
+    {'name': 'T_flow pressure always printed with .3E', 'expect': ('DATAFLOW.option', 'write_T_flow'),
+     'edits': [(K_, "        float_format, float_format, float_format, float_format)", "        float_format, '.3E', float_format, float_format)")]},
+    {'name': 'MWON whatever the option says', 'expect': ('DATAFLOW.option', 'write_surf'),
+     'edits': [(K_, "    if use_mw_correction:\n        mw_str = mw_field.format('MWON')", "    if use_mw_correction is not None:\n        mw_str = mw_field.format('MWON')")]},
+    {'name': 'species delimiter of the gas file not handed on', 'expect': ('DATAFLOW.option', 'write_gas'),
+     'edits': [(K_, "        reactions=gas_reactions,\n        species_delimiter=species_delimiter,", "        reactions=gas_reactions,\n        species_delimiter='+',")]},
     {'name': 'EA count from all reactions', 'expect': ('DATAFLOW.count', 'write_EA'),
      'edits': [(K_, '    n_reactions = len(valid_reactions)', '    n_reactions = len(reactions)')]},
     {'name': 'surf.inp also filters gas reactions in', 'expect': ('DATAFLOW.once', 'write_surf'),
